@@ -110,6 +110,18 @@ def mkOut (gEp gCmd gWd gSig gUser gVol gEnv gLabels gAuthor gOs gCreated gArch 
   architecture := unhexS gArch
   variant := unhexS gVariant
 
+/-- images: `x<hexcfg>:<cfgsize>:<hexlayer>=<size>;…` -/
+def parseImgs (s : String) : List Img :=
+  (items s).map fun it =>
+    match splitOnChar ':' it with
+    | [c, sz, ls] =>
+      { cfgName := unhex c, cfgSize := digitsToNat sz,
+        layers := ((splitOnChar ';' ls).filter (· ≠ [])).map fun l =>
+          match splitOnChar '=' l with
+          | [n, z] => (unhex n, digitsToNat z)
+          | _ => (unhex l, 0) }
+    | _ => { cfgName := [], cfgSize := 0, layers := [] }
+
 def handle (args : List String) : Option String :=
   match args with
   | ["oci.arch", s] =>
@@ -133,6 +145,9 @@ def handle (args : List String) : Option String :=
       | some e => if e.size % 512 = 0 then "F12a" else "unlisted"
       | none => "unlisted"
     some <| triple impl spec cls
+  | ["oci.multiwrite", imgs, msize] =>
+    let out := showEntries (multiWrite (parseImgs imgs) msize.toNat!)
+    some <| triple out out "-"
   | ["oci.read", blocks] =>
     let out := match readArchive (parseBlocks blocks) with
       | some es => "ok " ++ showEntries es
